@@ -58,7 +58,11 @@ def gen_rt(rng, prev, depth=0):
     c = rng.choice(CTORS)
     # Cell needs a sized, and Option<Option<..>> is not something the IDL can say: keep Option un-nested
     inner = gen_rt(rng, prev, depth + 1)
-    if c[0] == "Option" and inner[0].startswith("Option("):
+    # (also not through the transparent wrappers: Option<Box<Option<T>>> would be `??T` as well)
+    core = inner[0]
+    while any(core.startswith(w + "(") for w in ("Box", "std::rc::Rc", "std::sync::Arc", "std::cell::Cell", "std::cell::RefCell")):
+        core = core[core.index("(") + 1:]
+    if c[0] == "Option" and core.startswith("Option("):
         inner = rng.choice(ATOMS)
     return (f"{c[0]}({inner[0]})", c[1].format(inner[1]), c[2] or inner[2])
 
@@ -116,6 +120,22 @@ def gen_module(rng, mi):
             t["variants"] = vs
             t["lt"] = any((v["shape"] == "n" and any(f["rt"][2] for f in v["fields"])) or (v["shape"] == "t" and v["rt"][2]) for v in vs)
         types.append(t)
+    if mi % 8 == 5:
+        # every eighth module: an error enum in which documented unit / struct / tuple variants FOLLOW a tuple variant
+        # (the tuple variant's description is a `match` with panicking arms inside the VARIANTS initializer: what
+        # comes after it is compiled under different promotion rules; witness of the defect repaired by b3e1c1d)
+        refs = [dict(name=t["name"], lt=t["lt"], idx=i) for i, t in enumerate(types) if t["kind"] in ("ts", "cs", "te", "ce")]
+        ws = dict(kind="ts", name="Wit%d" % len(types), docs=gen_docs(rng), lt=False, fields=gen_fields(rng, refs, 1, 3))
+        ws["lt"] = any(f["rt"][2] for f in ws["fields"])
+        types.append(ws)
+        rt = (f"@{len(types) - 1}", ws["name"] + ("<'a>" if ws["lt"] else ""), ws["lt"])
+        vs = [dict(name="First", docs=gen_docs(rng), shape="t", rt=rt),
+              dict(name="Then", docs=["after a tuple variant"], shape="u"),
+              dict(name="ThenN", docs=["after a tuple variant", "second line"], shape="n", fields=gen_fields(rng, refs, 1, 2)),
+              dict(name="ThenT", docs=["x"], shape="t", rt=rt)]
+        we = dict(kind="er", name="WitError", docs=[], variants=vs)
+        we["lt"] = any((v["shape"] == "n" and any(f["rt"][2] for f in v["fields"])) or (v["shape"] == "t" and v["rt"][2]) for v in vs)
+        types.append(we)
     return dict(idx=mi, types=types)
 
 def docs_tok(docs): return ",".join((hexs(d) if d else "_") for d in docs) or "-"   # `_`: an empty doc line
